@@ -63,7 +63,7 @@ type c07Msg struct {
 
 type c07Tx struct {
 	Kind   string   `json:"kind"` // eth | cosmos
-	Msgs   []c07Msg `json:"msgs,omitempty"`
+	Msgs   []c07Msg `json:"msgs"`
 	Key    int      `json:"key"`    // cosmos: key index
 	Q      uint64   `json:"q"`      // cosmos: sequence signed
 	EthKey bool     `json:"ethkey"` // cosmos: sign with the eth_secp256k1 key for the EVM account
